@@ -5,6 +5,7 @@ sys.path.insert(0, os.path.join(os.path.dirname(os.path.abspath(__file__)), '..'
 from pcore_facts import facts_hook
 
 CONF = {
+    'coq_sample': 12,   # cases re-evaluated inside Coq by vm_compute against the extracted runner's output
     'interesting': ['error-after-add', 'panic-after-add', 'nested', 'multi-layer-decoder', 'accessor-after-error',
                     'accessor-stops-early', 'class-lookup', 'set-error-layer'],
     'rule': ('Scripted decoder families (see C03) with errors and panics at every point of a decoder, on the REAL packet.go builder '
